@@ -306,6 +306,17 @@ def sync_histories(s):
     s.do(op='rc_del', v=39, name='VCPU')
     s.do(op='trait_del', v=39, name='HW_CPU_X86_AVX')
     s.do(op='rc_list', v=39)
+    # a newer library adds a few names to a deployment that has at least as many custom ones:
+    # the number of rows says nothing about what is missing
+    for n in ('CUSTOM_T2', 'CUSTOM_T3', 'CUSTOM_T4'):
+        s.do(op='trait_put', v=39, name=n)
+    s.do(op='rc_post', v=39, name='CUSTOM_RC4')
+    rec.desync(classes=rnd.sample(unused_c, 2), traits=rnd.sample([t for t in std_t if t != 'HW_CPU_X86_AVX'], 2))
+    s.do(op='sync', v=39)
+    s.do(op='sync', v=39)
+    s.do(op='traits_list', v=39, fkind='', names=[], prefix='', assoc='')
+    rec.desync(classes=rnd.sample(unused_c, 1), traits=rnd.sample(std_t, 1))
+    s.do(op='sync', v=39)
     # only the first few are there
     rec.desync(classes=[c for c in std_c[3:] ])
     s.do(op='sync', v=39)
